@@ -2,7 +2,10 @@
 import collections
 import copy
 import math
-from montepy.data_inputs.cell_modifier import CellModifierInput
+from montepy.data_inputs.cell_modifier import (
+    CellModifierInput,
+    _drop_final_continuation_mark,
+)
 from montepy.errors import *
 from montepy.constants import BLANK_SPACE_CONTINUE, DEFAULT_VERSION, rel_tol, abs_tol
 from montepy.input_parser import syntax_node
@@ -258,7 +261,7 @@ class Importance(CellModifierInput):
                 if particle in printed_parts:
                     continue
                 printed_parts |= tree["classifier"].particles.particles
-                ret.append(tree.format())
+                ret.append(_drop_final_continuation_mark(tree.format()))
             return "\n".join(ret)
 
     @property
